@@ -5,8 +5,14 @@ package auditlog
 // Contracts for the verification tooling (build tag "verif"). Comment-only: never compiled into the daemon.
 
 //@ func (*AuditLogIngester).Process
+//@   blocks cancellable
 //@   requires a != nil
 //@   modifies chans
 //@   ensures[nil] result == nil
 //@   ensures[forward] sentlen(a.AuditLogChan) == old(sentlen(a.AuditLogChan)) + 1
 //@   |   && sent(a.AuditLogChan, old(sentlen(a.AuditLogChan))).value == line
+
+//@ func (*AuditLogIngester).Ingest
+//@   blocks cancellable
+//@   requires a != nil && ctx != nil && a.namedPipeIngester.Logger != nil && a.namedPipeIngester.Health != nil && HealthOK(a.namedPipeIngester.Health)
+//@   ensures[nonnil] result != nil
